@@ -6,9 +6,12 @@ package main
 
 import (
 	"errors"
+	"os"
+	"runtime"
 	"sort"
 	"strconv"
 	"strings"
+	"time"
 
 	"github.com/richardwilkes/toolbox/errs"
 	"verifharness/hx"
@@ -162,7 +165,28 @@ func (a *errsArea) dump() string {
 	return strings.Join(parts, " ")
 }
 
+// Run executes one line under a watchdog: a defective Append can build a cyclic chain, on which the library's own
+// loops (Count, the cursor walk, the argument copy) never end or allocate without bound.  The process then dies and the
+// check attributes the death to this line.
 func (a *errsArea) Run(line string) string {
+	done := make(chan string, 1)
+	go func() { done <- hx.Safe(func() string { return a.exec(line) }) }()
+	deadline := time.Now().Add(2 * time.Second)
+	for {
+		select {
+		case out := <-done:
+			return out
+		case <-time.After(10 * time.Millisecond):
+			var ms runtime.MemStats
+			runtime.ReadMemStats(&ms)
+			if ms.HeapAlloc > 1<<30 || time.Now().After(deadline) {
+				os.Exit(7)
+			}
+		}
+	}
+}
+
+func (a *errsArea) exec(line string) string {
 	f := strings.Fields(line)
 	if len(f) == 1 && f[0] == "reset" {
 		a.vars = map[int]error{}
